@@ -3,7 +3,7 @@
 tier=${1:-quick}
 cd "$(dirname "$0")/.."
 fail=0
-for c in C01 C02 C03 C04 C05 C06 C07 C08 C09 C10 C11 C12 C13 C14 C15 C16 C17 C18 C19 C20; do
+for c in ${CHECKS:-C01 C02 C03 C04 C05 C06 C07 C08 C09 C10 C11 C12 C13 C14 C15 C16 C17 C18 C19 C20}; do
   s=$(date +%s)
   out=$(/root/.pyenv/versions/3.12.1/bin/python run_check.py $c --tier $tier 2>&1)
   rc=$?
